@@ -230,8 +230,17 @@ pub fn check_record(r: &Value) -> Verdict {
     let mut emitted: HashMap<String, String> = HashMap::new();
     for (_, b, img) in &image {
         match derived(b) {
+            // parameters and locals are not looked up by the executor; their names may legally repeat those of globals
+            Some((stem, _)) if function_scoped(&stem) => {}
             Some((stem, None)) => {
                 let wanted = new_of.get(stem.as_str()).copied().unwrap_or(stem.as_str());
+                // by qualified name as well: entities of different namespaces may share their plain name
+                if let Some(path) = scopes.get(&stem).and_then(|t| t.strip_prefix("ns:")) {
+                    if path != "*" {
+                        let q: Vec<&str> = path.split("::").map(|c| new_of.get(c).copied().unwrap_or(c)).collect();
+                        emitted.insert(format!("@{}::{}", q.join("::"), wanted), img.clone());
+                    }
+                }
                 emitted.insert(wanted.to_string(), img.clone());
             }
             // the K-th member of an overload / template group (the base output numbers them 0, 1, ...)
@@ -402,6 +411,7 @@ fn record_for(p: &Prog, renamed: &Prog, map: Vec<(String, String)>, verbatim: Ve
                 }
             }
             Kind::Namespace => "global".to_string(),
+            Kind::Global if p.global_ns.contains_key(&n) => format!("ns:{}", p.global_ns[&n].iter().map(|x| p.names[*x].clone()).collect::<Vec<_>>().join("::")),
             Kind::Struct | Kind::Enum | Kind::EnumValue(_) | Kind::Global => "global".to_string(),
             Kind::Field(s) => format!("struct{}", s),
             Kind::Param(f) | Kind::Local(f) => format!("function{}", f),
@@ -433,7 +443,7 @@ pub fn make_case_with(choices: &[u32], class: u8, tgt_i: usize, seed: u64, built
     let mut verbatim = Vec::new();
     let mut shared_ok = Vec::new();
     let mut used: HashSet<String> = p.names.iter().cloned().collect();
-    let class_name;
+    let mut class_name;
     match class % 5 {
         0 => {
             // every identifier gets a fresh plain name
@@ -531,18 +541,77 @@ pub fn make_case_with(choices: &[u32], class: u8, tgt_i: usize, seed: u64, built
             let mut owners_l = HashSet::new();
             let mut owners_f = HashSet::new();
             let mut chosen: Vec<usize> = Vec::new();
-            let use_fields = mix.next() % 2 == 0;
-            for (n, k) in &ents {
-                match k {
-                    Kind::Local(f) | Kind::Param(f) if !use_fields && owners_l.insert(*f) => chosen.push(*n),
-                    Kind::Field(s) if use_fields && owners_f.insert(*s) => chosen.push(*n),
-                    _ => {}
+            let variant = mix.next() % 4;
+            let use_fields = variant == 0;
+            // statics of namespaces that are always referenced by their full name (odd name index, see the renderer)
+            let namespaced_statics: Vec<usize> = p.globals.iter().map(|g| g.name).filter(|n| p.global_ns.contains_key(n)).collect();
+            let distinct_paths = {
+                let mut paths: Vec<&Vec<usize>> = namespaced_statics.iter().map(|n| &p.global_ns[n]).collect();
+                paths.sort();
+                paths.dedup();
+                paths.len()
+            };
+            let mut keep_verbatim = true;
+            if variant == 2 && distinct_paths >= 2 {
+                // statics of different namespaces share a name; no chosen namespace encloses another, so an
+                // unqualified use inside a namespace still finds the static of that namespace first
+                class_name = "shared_namespace_statics";
+                let mut paths: Vec<Vec<usize>> = Vec::new();
+                for n in &namespaced_statics {
+                    let path = &p.global_ns[n];
+                    if !paths.iter().any(|q| q.starts_with(path) || path.starts_with(q)) {
+                        paths.push(path.clone());
+                        chosen.push(*n);
+                    }
+                }
+                if chosen.len() < 2 {
+                    class_name = "shared";
+                }
+                keep_verbatim = false;
+            } else if variant == 3 && p.globals.iter().any(|g| g.storage == "static") {
+                // a static variable and locals / parameters of functions that do not name it share a name: legal
+                // shadowing in the source; on Metal the static may reach those functions as an implicit parameter
+                class_name = "shared_static_and_locals";
+                let statics: Vec<usize> = p.globals.iter().filter(|g| g.storage == "static").map(|g| g.name).collect();
+                let g = statics[(mix.next() % statics.len() as u64) as usize];
+                let always_qualified = p.global_ns.contains_key(&g) && g % 2 == 1;
+                chosen.push(g);
+                let base_text = progen::render(&p);
+                let gname = p.names[g].clone();
+                // the text of each function: from its header to the next function (a conservative over-approximation)
+                let mentions = |fname: &str| -> bool {
+                    let Some(at) = base_text.find(&format!(" {}(", fname)) else { return true };
+                    let rest = &base_text[at..];
+                    let end = rest.find("\n}\n").map(|e| e + 3).unwrap_or(rest.len());
+                    rest[..end].contains(&gname)
+                };
+                for (n, k) in &ents {
+                    if let Kind::Local(f) | Kind::Param(f) = k {
+                        if *f < p.funcs.len() && owners_l.insert(*f) {
+                            let fname = p.names[p.funcs[*f].name].clone();
+                            let overloaded = p.funcs.iter().filter(|h| h.name == p.funcs[*f].name).count() > 1;
+                            if always_qualified || (!overloaded && !mentions(&fname)) {
+                                chosen.push(*n);
+                            }
+                        }
+                    }
+                }
+                keep_verbatim = false;
+            } else {
+                for (n, k) in &ents {
+                    match k {
+                        Kind::Local(f) | Kind::Param(f) if !use_fields && owners_l.insert(*f) => chosen.push(*n),
+                        Kind::Field(s) if use_fields && owners_f.insert(*s) => chosen.push(*n),
+                        _ => {}
+                    }
                 }
             }
             for n in &chosen {
                 q.names[*n] = w.clone();
                 map.push((p.names[*n].clone(), w.clone()));
-                verbatim.push(p.names[*n].clone());
+                if keep_verbatim {
+                    verbatim.push(p.names[*n].clone());
+                }
             }
             for a in &chosen {
                 for b in &chosen {
@@ -578,7 +647,7 @@ fn table_program(kind: usize, word: &str) -> (String, String, Vec<(String, Strin
 
 pub fn run(ctx: &mut Ctx) {
     use proptest::prelude::*;
-    ctx.rule = "A program and a consistently renamed copy are compiled for DirectX HLSL, Vulkan HLSL or Metal. Renamings: (fresh) every identifier to a fresh plain name; (reserved) 1-3 entities onto words the target reserves, drawn from independent lists (86 C++14 keywords, 9 Metal address-space / stage keywords and the namespace name, 87 HLSL reserved words and keywords) - also exhaustively: every word x 11 entity kinds (struct, field, enum, enum value, static, static const, function, overloaded function, parameter, local, template parameter) in a fixed program; (suffix) 1-3 entities onto name_N forms that collide with the names generated for overloads and template instances; (reserved_suffix) one entity onto a reserved word and 1-2 others onto word_0 / word_1, the names the exporter generates for it; (shared) one name shared by locals / parameters of different functions or by fields of different structs; (pipeline_io) exhaustively, every reserved word on each of the 10 interface names (output struct, its members with semantics, entry points, stage parameters) of a vertex + pixel pipeline compiled with its generated entry points. Checked: identical token streams up to identifiers with a consistent identifier map; fixed identifiers unchanged; plain names kept verbatim; no emitted user name is reserved in the target; no two entities share an emitted name unless the sharing is legal; the renamed program passes the C01/C02 differential executor. Renamings RSSL's own front end rejects are skipped and counted. Non-trivial = both programs compiled and at least one user identifier was compared; distinct = hash of (renamed source, target).".into();
+    ctx.rule = "A program and a consistently renamed copy are compiled for DirectX HLSL, Vulkan HLSL or Metal. Renamings: (fresh) every identifier to a fresh plain name; (reserved) 1-3 entities onto words the target reserves, drawn from independent lists (86 C++14 keywords, 9 Metal address-space / stage keywords and the namespace name, 87 HLSL reserved words and keywords) - also exhaustively: every word x 11 entity kinds (struct, field, enum, enum value, static, static const, function, overloaded function, parameter, local, template parameter) in a fixed program; (suffix) 1-3 entities onto name_N forms that collide with the names generated for overloads and template instances; (reserved_suffix) one entity onto a reserved word and 1-2 others onto word_0 / word_1, the names the exporter generates for it; (shared) one name shared by locals / parameters of different functions, by fields of different structs, by statics of different namespaces, or by a static and locals / parameters of functions that do not name it; (namespace_statics) exhaustively, every assignment of {own name, one shared plain name, its generated form name_0} to the statics of two sibling namespaces and of the global scope and to a parameter, a local and a nested local of functions that reach those statics only through calls (2 187 assignments x 3 targets); (pipeline_io) exhaustively, every reserved word on each of the 10 interface names (output struct, its members with semantics, entry points, stage parameters) of a vertex + pixel pipeline compiled with its generated entry points. Checked: identical token streams up to identifiers with a consistent identifier map; fixed identifiers unchanged; plain names kept verbatim; no emitted user name is reserved in the target; no two entities share an emitted name unless the sharing is legal; the renamed program passes the C01/C02 differential executor. Renamings RSSL's own front end rejects are skipped and counted. Non-trivial = both programs compiled and at least one user identifier was compared; distinct = hash of (renamed source, target).".into();
     ctx.assumptions.push("reserved-word lists are limited to words every implementation of the target rejects as an identifier; names that are merely builtin functions are not required to be renamed".into());
     ctx.assumptions.push("namespaces are not generated: names shared between namespaces are not covered".into());
     if !ctx.replay_tier(&check_record) {
@@ -637,6 +706,52 @@ pub fn run(ctx: &mut Ctx) {
         };
         ctx.run_enum("pipeline_interface_names", io_table.len() as u64, true, io_make, |i| check_record(&io_make(i)));
     }
+    // ---- statics of two namespaces and of the global scope, and the parameters / locals of functions that reach them
+    // only through calls, take every combination of {own name, one shared plain name, the generated form of it}: all
+    // legal in the source (uses of the statics are qualified or come from functions without variables)
+    {
+        const NS_NAMES: [&str; 14] = ["NA_zz", "NB_zz", "ga_zz", "gb_zz", "gg_zz", "fa_zz", "fb_zz", "hh_zz", "user_zz", "va_zz", "vb_zz", "vu_zz", "lu_zz", "li_zz"];
+        const NS_SCOPES: [&str; 14] = ["global", "global", "ns:NA_zz", "ns:NB_zz", "global", "ns:NA_zz", "ns:NB_zz", "global", "global", "function0", "function1", "function3", "function3", "function3"];
+        // the names that vary: ga gb gg va vu lu li
+        const VARYING: [usize; 7] = [2, 3, 4, 9, 11, 12, 13];
+        const POOL: [&str; 2] = ["wq_zz", "wq_zz_0"];
+        let ns_program = |n: &[String]| -> String {
+            format!(
+                "namespace {na} {{\n    static int {ga} = 1;\n    int {fa}(int {va}) {{ {na}::{ga} += {va}; return {na}::{ga}; }}\n}}\nnamespace {nb} {{\n    static int {gb} = 2;\n    int {fb}(int {vb}) {{ {nb}::{gb} -= {vb}; return {nb}::{gb} + {na}::{ga}; }}\n}}\nstatic int {gg} = 5;\nint {hh}() {{ {gg} += 1; return {gg} + {na}::{fa}(1); }}\nint {user}(int {vu}) {{\n    int {lu} = {vu} * 2;\n    {{\n        int {li} = {lu} + 1;\n        {lu} += {li};\n    }}\n    return {na}::{fa}({vu}) * 100 + {nb}::{fb}({lu}) * 10 + {na}::{ga} + {nb}::{gb} + {hh}();\n}}\n",
+                na = n[0], nb = n[1], ga = n[2], gb = n[3], gg = n[4], fa = n[5], fb = n[6], hh = n[7], user = n[8], va = n[9], vb = n[10], vu = n[11], lu = n[12], li = n[13]
+            )
+        };
+        let per_target = 3u64.pow(VARYING.len() as u32);
+        let ns_make = |i: u64| {
+            let tgt = [Tgt::Dx, Tgt::Vk, Tgt::Msl][(i / per_target) as usize % 3];
+            let mut k = i % per_target;
+            let base_names: Vec<String> = NS_NAMES.iter().map(|s| s.to_string()).collect();
+            let mut names = base_names.clone();
+            let mut map = Vec::new();
+            for v in VARYING {
+                let choice = (k % 3) as usize;
+                k /= 3;
+                if choice > 0 {
+                    names[v] = POOL[choice - 1].to_string();
+                    map.push(json!([NS_NAMES[v], POOL[choice - 1]]));
+                }
+            }
+            let scopes: serde_json::Map<String, Value> = NS_NAMES.iter().zip(NS_SCOPES.iter()).map(|(n, s)| (n.to_string(), json!(s))).collect();
+            // not a renaming that keeps the meaning: the local of the outer block named like the parameter, or the
+            // nested local named like the outer local its initialiser reads
+            let invalid = names[12] == names[11] || names[13] == names[12];
+            json!({"base": ns_program(&base_names), "renamed": ns_program(&names), "map": map, "names": NS_NAMES, "grouped": [], "scopes": scopes, "invalid": invalid,
+                "expect_verbatim": [], "shared_ok": [["li_zz", "vu_zz"]], "class": "namespace_statics", "target": tgt.name(), "arg_seed": 1})
+        };
+        ctx.run_enum("namespace_static_names", per_target * 3, true, ns_make, |i| {
+            let r = ns_make(i);
+            if r["invalid"].as_bool().unwrap_or(false) {
+                Verdict::pass(None, vec!["namespace_statics_not_a_renaming".into()])
+            } else {
+                check_record(&r)
+            }
+        });
+    }
     // ---- fresh names for the fixed program's kinds (sanity: the table program itself renames cleanly)
     ctx.run_prop(
         "renamed_generated_programs",
@@ -645,7 +760,7 @@ pub fn run(ctx: &mut Ctx) {
         |(ch, class, t, seed): &(Vec<u32>, u8, usize, u64)| make_case(ch, *class, *t, *seed),
         check_record,
     );
-    for l in ["class_fresh", "class_reserved", "class_suffix", "class_shared", "class_reserved_suffix", "verbatim_checked", "executed", "legal_sharing"] {
+    for l in ["class_fresh", "class_reserved", "class_suffix", "class_shared", "class_shared_static_and_locals", "class_namespace_statics", "class_reserved_suffix", "verbatim_checked", "executed", "legal_sharing"] {
         ctx.require_label(l, 50);
     }
 }
